@@ -30,6 +30,8 @@ def draw_knobs(rng, cfg):
     k["hostile"] = rng.choice([0.05, 0.15, 0.3])
     k["brackets"] = rng.random() < cfg.get("bracket_rate", 0.1)
     k["restart_rate"] = rng.choice([0.1, 0.2, 0.35])
+    if cfg.get("force"):
+        k.update(cfg["force"])
     return k
 
 
